@@ -83,6 +83,11 @@ class Tokenizer:
         line = ""
         while True:
             tok = next(self._tokengen)
+            if tok.type == Token.ENDMARKER:
+                raise SyntaxError(
+                    "unexpected EOF while scanning macro arguments",
+                    (self._path or "<unknown>", tok.start[0], tok.start[1] + 1, tok.line, tok.end[0], tok.end[1] + 1),
+                )
             if tok.type == Token.OP and tok.string[-1] in "([{":  # push paren level
                 paren_level.append(tok.string[-1])
             if paren_level:
